@@ -81,3 +81,28 @@ for (hn, mac, T, args, chunk, maxrel, unw, warm, dom, tier) in _STEP_ROWS:
         bounds="%s<%s> %s, original ratio 1.0, chunk %d, max_rel %s, 1 channel, unwind %d; concrete warm-up (ratio, calls) %s; then 1 symbolic setter + 1 call; index-signal input, sentinel output; region [base]" % (_TYPES[mac], T, args, chunk, maxrel, unw, warm))
 HARNESSES["c03_witness"] = H("c03", ["C03", "C04"], witness=True, cap=600,
     sym="as c03_ffo_nearest_full", bounds="final check must FAIL (vacuity witness)")
+HARNESSES["dbg_oob"] = H("dbg", ["C99"], tier="quick", cap=300, sym="debug", bounds="debug harness for the counterexample pipeline (not a property)")
+
+# ---------------------------------------------------------------- C13: malformed arguments
+_shape_sym = "shapes: number of input/output slices in [0,3], each slice length in [0, required+1], mask None or Some of length in [0,4] with symbolic entries"
+def _c13(name, bounds, sym=_shape_sym, stubs=(), cap=480, tier="quick", witness=False):
+    HARNESSES[name] = H("c13", ["C13"], tier=tier, cap=cap, sym=sym, bounds=bounds, stubs=stubs, untagged="C13", witness=witness, mem=10)
+_c13("c13_shape_ffo", "FastFixedOut<f64> Nearest chunk 2, 2 channels, fresh; process_into_buffer; then a valid call compared with a twin")
+_c13("c13_shape_ffi", "FastFixedIn<f32> Linear chunk 2, 2 channels, fresh; process_into_buffer; then a valid call compared with a twin")
+_c13("c13_shape_sfo", "SincFixedOut<f64>+Probe(2,1) chunk 2, 2 channels; process_into_buffer; twin")
+_c13("c13_shape_sfi", "SincFixedIn<f64>+Probe(2,1) chunk 2, 2 channels; process_into_buffer; twin")
+_c13("c13_shape_ffo_after_call", "FastFixedOut<f64> after one valid call and a ramped ratio change to 0.75; process_into_buffer; twin with the same history", tier="thorough")
+_c13("c13_shape_ffo_partial", "FastFixedOut<f64> 2 channels; process_partial_into_buffer(Some) with malformed channel counts/output lengths",
+     sym="channel counts in [0,3], input lengths in [0,7], output lengths in [0,3]")
+_c13("c13_shape_ftio", "FftFixedInOut<f64> 2->3 chunk 2, 2 channels; twin", stubs=FFT_STUBS, tier="thorough")
+_c13("c13_shape_fti", "FftFixedIn<f64> 2->3 chunk 2, 2 channels; twin", stubs=FFT_STUBS, tier="thorough")
+_c13("c13_shape_fto", "FftFixedOut<f64> 2->3 chunk 3, 2 channels; twin", stubs=FFT_STUBS, tier="thorough")
+_c13("c13_process_mask", "FastFixedOut<f64> 2 channels; process() with a mask of symbolic length", sym="mask length in [0,4], entries symbolic")
+_c13("c13_ctor_fast", "FastFixedIn::new", sym="resample_ratio, max_resample_ratio_relative: every non-NaN f64")
+_c13("c13_ctor_sinc", "SincFixedIn::new_with_interpolator (Probe)", sym="resample_ratio, max_resample_ratio_relative: every non-NaN f64")
+_c13("c13_ctor_out_concrete", "FastFixedOut::new, SincFixedOut::new_with_interpolator with 6 concrete offending (ratio,max) pairs", sym="selector u8")
+_c13("c13_ctor_fft", "FftFixedIn/Out/InOut::new with at least one zero sample rate", sym="which rate is zero; the other in [0,3]", stubs=FFT_STUBS)
+_c13("c13_witness", "final checks must FAIL (vacuity witness)", witness=True)
+_c13("c13_shape_ftio_lite", "FftFixedInOut<f64> 2->3 chunk 2, 2 channels; result classification, writes nothing, getters unchanged (no follow-up call)", stubs=FFT_STUBS)
+_c13("c13_shape_fti_lite", "FftFixedIn<f64> 2->3 chunk 2, 2 channels; as above", stubs=FFT_STUBS)
+_c13("c13_shape_fto_lite", "FftFixedOut<f64> 2->3 chunk 3, 2 channels; as above", stubs=FFT_STUBS)
